@@ -822,7 +822,30 @@ def _replay_with(k, mk, lens, nxt, rng, w=None):
                         pass
                     except Exception as e:
                         return {'reproduced': True, 'detail': '%s raised %s instead of ValueError' % (name, type(e).__name__)}
-        return {'reproduced': False, 'detail': 'guards raise ValueError on the real library'}
+                    # the refused call must leave the utterance in progress alone: it continues as if nothing had happened
+                    if not c.started:
+                        return {'reproduced': True, 'detail': 'after the refused %s (%d samples buffered) the computer is no longer started: the utterance in progress was finalized / reset' % (name, chunk)}
+        for chunk in ([w['bl']] if w.get('bl') else []) + [3, 1]:
+            for name in ('compute_full', 'frame_by_frame_calculation'):
+                xs = rng.randn(nxt[0] + chunk)
+                c, ref = mk(), mk()
+                parts, parts_ref = [c.compute_chunk(xs[:chunk])], [ref.compute_chunk(xs[:chunk])]
+                if not c.started:
+                    continue
+                try:
+                    (c.compute_full if name == 'compute_full' else (lambda s_: frame_by_frame_calculation(c, s_)))(rng.randn(nxt[1] if len(nxt) > 1 else 9))
+                except ValueError:
+                    pass
+                try:
+                    parts += [c.compute_chunk(xs[chunk:]), c.finalize()]
+                except Exception as e:
+                    return {'reproduced': True, 'detail': 'continuing the utterance after the refused %s raised %s: %s' % (name, type(e).__name__, e)}
+                parts_ref += [ref.compute_chunk(xs[chunk:]), ref.finalize()]
+                a, b = np.concatenate(parts), np.concatenate(parts_ref)
+                if a.shape != b.shape or not np.array_equal(a, b):
+                    return {'reproduced': True, 'detail': 'utterance of %d samples interrupted after %d by a refused %s: %d frames, undisturbed %d frames%s' % (
+                        len(xs), chunk, name, a.shape[0], b.shape[0], '' if a.shape != b.shape else ' (values differ)')}
+        return {'reproduced': False, 'detail': 'guards raise ValueError on the real library and leave the utterance in progress alone'}
     for N1 in lens:
         x1 = rng.randn(N1)
         for cuts1 in ([], [N1], [0, N1], [N1 // 2, N1 - N1 // 2], [N1, 0]):
